@@ -11,14 +11,15 @@ import vlib
 VRF = ["-vrf", "-epoch", "6", "-validators", "4"]
 
 
-def run_scenarios(ctx, seeds, blocks, extra=()):
+def run_scenarios(ctx, seeds, blocks, extra=(), vh=None, env=None):
     """Runs `vh cons-run` for every seed (in parallel).  Returns (trace_lines, summaries)."""
     def one(seed):
         d = ctx.path("cons-%d" % seed)
         os.makedirs(d, exist_ok=True)
         tr, sm = os.path.join(d, "trace.ndjson"), os.path.join(d, "sum.json")
-        p = subprocess.run([vlib.VH, "cons-run", "-seed", str(seed), "-blocks", str(blocks), "-out", tr, "-summary", sm,
-                            "-scratch", os.path.join(d, "scr")] + list(extra), stdout=subprocess.PIPE, stderr=subprocess.PIPE, text=True)
+        p = subprocess.run([vh or vlib.VH, "cons-run", "-seed", str(seed), "-blocks", str(blocks), "-out", tr, "-summary", sm,
+                            "-scratch", os.path.join(d, "scr")] + list(extra), stdout=subprocess.PIPE, stderr=subprocess.PIPE, text=True,
+                           env=dict(os.environ, **(env or {})))
         if p.returncode != 0:
             raise vlib.Infra("cons-run seed %d failed: %s" % (seed, p.stderr[-2000:]))
         s = json.load(open(sm))
